@@ -17,7 +17,7 @@ pub struct Case {
 }
 
 /// a program producing many packets: `rows` rows over `ncols` small columns
-fn long_program(g: &mut G<'_>, bin: bool, rows: usize, ncols: usize) -> Program {
+fn long_program(g: &mut G<'_>, _bin: bool, rows: usize, ncols: usize) -> Program {
     let cols: Vec<ColSpec> = (0..ncols).map(|i| ColSpec { table: "t".into(), name: format!("c{}", i), coltype: T_LONG, flags: 0 }).collect();
     let rows: Vec<RowProg> = (0..rows)
         .map(|r| RowProg { cells: (0..ncols).map(|c| Val::plain(Base::I32((r * 31 + c) as i32))).collect(), form: if g.coin() { RowForm::WriteRow } else { RowForm::Cols } })
